@@ -16,6 +16,7 @@ mod rng;
 mod sched;
 mod seq;
 mod twin;
+mod wire;
 mod world;
 
 use plan::{Job, Plan, ReplayFile};
